@@ -220,7 +220,8 @@ inductive Run
   | read (cfg : ReaderCfg) (fault : Bool) (rows : List Row) (close : Bool)
   /-- a `Writer` writing `rows`, closed afterwards or not -/
   | write (header : Nat) (rows : List Row) (close : Bool)
-  /-- `validate(…, validate_until=0)`: the generator is never started, the `with` block still closes -/
+  /-- `validate(…, validate_until=0)`: `rows()` is called (counters, location and checks are reset) but no row is ever
+  requested, the `with` block still closes -/
   | validate0
   deriving Repr, DecidableEq, Inhabited
 
@@ -253,7 +254,7 @@ def runOne {σ} (cols : List Column) (checks : List (Check σ)) (pad : Row → R
     let c := if close then (closeValidator checks w1.sts).1 else none
     ({ writes := errs, out := w1.out, closeFail := c }, w1.sts)
   | .validate0 =>
-    ({ closeFail := (closeValidator checks before).1 }, before)
+    ({ closeFail := (closeValidator checks (checks.map (·.reset))).1 }, checks.map (·.reset))
 
 def runHistory {σ} (cols : List Column) (checks : List (Check σ)) (pad : Row → Row) :
     List σ → List Run → List RunOutcome
